@@ -525,3 +525,29 @@ func vfWKTUnmarshal(b []byte, m proto.Message) (handled bool, err error) {
 	}
 	return true, nil
 }
+
+// vfProtoMerge: proto.Merge over the protoreflect interface (the engine's stand-in when both
+// messages are fakes): populated scalars overwrite, lists append, messages merge recursively.
+func vfProtoMerge(dst, src proto.Message) {
+	vfMergeReflect(dst.ProtoReflect(), src.ProtoReflect())
+}
+
+func vfMergeReflect(d, s protoreflect.Message) {
+	s.Range(func(fd protoreflect.FieldDescriptor, v protoreflect.Value) bool {
+		switch {
+		case fd.IsList():
+			dl := d.Mutable(fd).List()
+			sl := v.List()
+			for i := 0; i < sl.Len(); i++ {
+				dl.Append(sl.Get(i))
+			}
+		case fd.IsMap():
+			vfFail("vfProtoMerge: map fields are not modelled")
+		case fd.Message() != nil:
+			vfMergeReflect(d.Mutable(fd).Message(), v.Message())
+		default:
+			d.Set(fd, v)
+		}
+		return true
+	})
+}
